@@ -49,3 +49,44 @@ package detector
 //@   assert [symmetric] ovrel(a, b) <==> ovrel(b, a)
 //@   assert [reflexive] ovrel(a, a)
 //@ end
+
+//@ -- the spatial-ID (radix-tree) form: the tree is third-party code, assumed total (no panic on a non-empty tree)
+//@ extern github.com/trajectoryjp/multidimensional-radix-tree/src/tree.Create3DTable
+//@ end
+//@ extern github.com/trajectoryjp/multidimensional-radix-tree/src/tree.CreateTree
+//@   ensures r0 != nil
+//@ end
+//@ extern invoke.TreeInterface.Append
+//@ end
+//@ extern invoke.TreeInterface.IsOverlap
+//@ end
+
+//@ func getSpatialIdAttrs
+//@   props C05 C15
+//@   nooverflow
+//@   ensures [ok-iff-wellformed] r4 == nil <==> (nf(spatialId) == 4 && isnum(fld(spatialId, 0)) && isnum(fld(spatialId, 1)) && isnum(fld(spatialId, 2)) && isnum(fld(spatialId, 3)))
+//@   ensures [values] r4 == nil ==> r0 == val(fld(spatialId, 0)) && r1 == val(fld(spatialId, 1)) && r2 == val(fld(spatialId, 2)) && r3 == val(fld(spatialId, 3))
+//@ end
+
+//@ func offsetFIndex
+//@   props C05 C15
+//@   nooverflow
+//@   requires 0 <= zoom && zoom <= 35
+//@   ensures r1 == nil ==> r0 == f + ashift(16777216, zoom - 25)
+//@ end
+
+//@ func CheckSpatialIdsArrayOverlap
+//@   props C05 C15
+//@   nooverflow
+//@   requires forall k :: 0 <= k && k < len(spatialIds1) ==> (nf(spatialIds1[k]) == 4 && isnum(fld(spatialIds1[k], 0)) ==> 0 <= val(fld(spatialIds1[k], 0)) && val(fld(spatialIds1[k], 0)) <= 35)
+//@   requires forall k :: 0 <= k && k < len(spatialIds2) ==> (nf(spatialIds2[k]) == 4 && isnum(fld(spatialIds2[k], 0)) ==> 0 <= val(fld(spatialIds2[k], 0)) && val(fld(spatialIds2[k], 0)) <= 35)
+//@   ensures [false-on-error] r1 != nil ==> r0 == false
+//@   ensures [empty] len(spatialIds1) == 0 && (forall k :: 0 <= k && k < len(spatialIds2) ==> r1 == nil) ==> r0 == false
+//@ end
+
+//@ func CheckSpatialIdsOverlap
+//@   props C05 C15
+//@   nooverflow
+//@   requires (nf(spatialId1) == 4 && isnum(fld(spatialId1, 0)) ==> 0 <= val(fld(spatialId1, 0)) && val(fld(spatialId1, 0)) <= 35) && (nf(spatialId2) == 4 && isnum(fld(spatialId2, 0)) ==> 0 <= val(fld(spatialId2, 0)) && val(fld(spatialId2, 0)) <= 35)
+//@   ensures [false-on-error] r1 != nil ==> r0 == false
+//@ end
